@@ -75,7 +75,7 @@ def fresh_world():
 
 
 def recv_stream(e, forms, npub, max_polls, max_none, check, drops=0, restart=False, sym_state=False, balance=False,
-                consumer_restart=False, bal_flag=None, disjoint_ids=False, low_latency=None, timeout_ms=None):
+                consumer_restart=False, bal_flag=None, disjoint_ids=False, low_latency=None, timeout_ms=None, again=False):
     """Build a receiver over len(forms) sources, queue a bounded symbolic stream on every connection and call the real
     ZMQReceiver.recv until the schedule is exhausted; `check(ctx, data, st)` is the oracle for every returned set.
 
@@ -116,6 +116,12 @@ def recv_stream(e, forms, npub, max_polls, max_none, check, drops=0, restart=Fal
     for j, (sub, part) in enumerate(allparts):
         if j not in dropped: sub.deliver(part)
     World.oracle = PollOracle(e, max_polls, max_none, advance_clock=timeout_ms is not None)
+    if again:        # the n-th request send hits the PUSH high water mark (zmq.Again): the receiver then considers that source disconnected
+        again_at = e.choice('again_at', 4); npush = [0]
+        def hwm(sock):
+            npush[0] += 1
+            return again_at != 0 and npush[0] == again_at
+        World.push_hwm_hit = hwm
     state = Z.ZMQStateRecv(e.fresh_int('state0', 0)) if sym_state else None
     try:
         while True:
